@@ -136,6 +136,41 @@ def run(ctx):
         findings, _e, _x = interp.run_graph(g, random.Random(ctx.seed + len(line)), runs=1)
         if findings:
             failing.append(dict(profile="debug", cmd="fold program", program=t, why="a folded constant is not the RV32IM result: %s" % findings[0], impl=line[:300]))
+    # the control transfer of every jump and branch form: the node's successors in the graph are the target the text names
+    # (and the next instruction where the manual lets execution continue there)
+    regs = ["zero", "x0", "ra", "x1", "t0", "x5", "t1", "s1", "a0", "a5", "t6", "sp"]
+    tforms = [("j T", "jump"), ("b T", "jump"), ("jal x0, T", "jump"), ("jal zero, T", "jump"), ("J T", "jump"), ("JAL x0, T", "jump")]
+    tforms += [("jal %s, T" % r, "link") for r in regs if r not in ("zero", "x0", "ra", "x1")]
+    for m in ["beq", "bne", "blt", "bge", "bltu", "bgeu", "bgt", "ble", "bgtu", "bleu"]:
+        for _ in range(3):
+            tforms.append(("%s %s, %s, T" % (m, ctx.rng.choice(regs), ctx.rng.choice(regs)), "branch"))
+    for m in ["beqz", "bnez", "bltz", "bgez", "bgtz", "blez"]:
+        for _ in range(2):
+            tforms.append(("%s %s, T" % (m, ctx.rng.choice(regs)), "branch"))
+    tprogs = []
+    for t, kind in tforms:
+        back = ctx.rng.random() < 0.3        # the target may lie before the instruction
+        if back:
+            tprogs.append(("main:\n li a0, 1\nT:\n addi a0, a0, 1\n %s\n addi a0, a0, 2\n li a7, 10\n ecall\n" % t, 3, 2, 4))
+        else:
+            tprogs.append(("main:\n li a0, 1\n %s\n addi a0, a0, 1\nT:\n li a7, 10\n ecall\n" % t, 2, 4, 3))
+    tout = lib.run_impl(ctx, [lib.store_cmd("cfg dir -", pipe.single(p[0]), "a.s") for p in tprogs], tag="transfer")
+    tmod = lib.run_model(ctx, [lib.store_cmd("cfg dir -", pipe.single(p[0]), "a.s") for p in tprogs], tag="transfer-model")
+    evaluations += len(tprogs)
+    for (t, kind), (prog, at, tgt, fall), line, ml in zip(tforms, tprogs, tout, tmod):
+        if lib._PICKS.sub("", line) != lib._PICKS.sub("", ml):
+            disagreements.append(dict(profile="debug", cmd="cfg dir: " + t, impl=line[:200], model=ml[:200]))
+        mm = re.search(r"C\(%d N\([^|]*\|[^)]*\) L\[[^\]]*\] \w+ >\[([0-9,]*)\]" % at, line)
+        if not mm:
+            if not line.startswith("C("):
+                failing.append(dict(profile="debug", cmd="transfer " + t, program=prog, impl=line[:300], why="the program with %r is not analysed" % t))
+            continue
+        nx = sorted(int(x) for x in mm.group(1).split(",") if x)
+        want = {"jump": [[tgt]], "branch": [sorted([tgt, fall])], "link": [[tgt], sorted([tgt, fall])]}[kind]
+        if nx not in want:
+            failing.append(dict(profile="debug", cmd="transfer " + t, program=prog, impl=line[:400],
+                                why="%r transfers control to its label (node %d)%s; its successors in the graph are %s" % (
+                                    t, tgt, "" if kind == "jump" else " or continues (node %d)" % fall, nx)))
     forms, dbad, ddis = decode_check(ctx)
     evaluations += len(forms)
     for d in dbad:
